@@ -464,9 +464,71 @@ Proof.
   rewrite flat_map_app. simpl. eauto.
 Qed.
 
+(* ---- a file that fails before any of its tests runs ---- *)
+Notation run_files := (run_files scope logline istate body run_body init).
+Notation cli_outcome := (cli_outcome scope logline istate body run_body init).
+
+Lemma run_files_broken fs c : In FBroken fs -> run_files fs c = None.
+Proof.
+  revert c. induction fs as [|f r IH]; intros c Hin; [destruct Hin|].
+  destruct f as [|is]; [reflexivity|]. simpl.
+  destruct Hin as [Hf|Hin]; [discriminate|].
+  destruct (run_items is c) as [[cs1 c1]|]; [|reflexivity].
+  rewrite (IH c1 Hin). reflexivity.
+Qed.
+
+(* exit status non-zero, nothing reported, nothing counted - whatever the other files contain, wherever the
+   broken file stands *)
+Theorem broken_file_verdict fs :
+  In FBroken fs ->
+  let '(ex, cs, c) := cli_outcome fs in ex <> 0 /\ cs = [] /\ c = c0.
+Proof.
+  intros Hin. unfold TestRun.cli_outcome. rewrite (run_files_broken fs c0 Hin). repeat split. discriminate.
+Qed.
+
+Lemma run_items_app_opt a b c :
+  run_items (a ++ b) c =
+  match run_items a c with
+  | None => None
+  | Some (cs1, c1) =>
+    match run_items b c1 with
+    | None => None
+    | Some (cs2, c2) => Some (cs1 ++ cs2, c2)
+    end
+  end.
+Proof.
+  revert c. induction a as [|i r IH]; intros c; simpl.
+  - destruct (run_items b c) as [[cs2 c2]|]; reflexivity.
+  - destruct (run_item i c) as [[cs0 c0']|]; [|reflexivity].
+    rewrite IH.
+    destruct (run_items r c0') as [[cs1 c1]|]; [|reflexivity].
+    destruct (run_items b c1) as [[cs2 c2]|]; [|reflexivity].
+    rewrite app_assoc. reflexivity.
+Qed.
+
+(* and without a broken file the files are just their items in sequence, on one counter *)
+Theorem run_files_all_ok fls c :
+  run_files (map FOk fls) c = run_items (concat fls) c.
+Proof.
+  revert c. induction fls as [|is r IH]; intros c; [reflexivity|].
+  simpl. rewrite run_items_app_opt. 
+  destruct (run_items is c) as [[cs1 c1]|]; [|reflexivity].
+  rewrite IH. reflexivity.
+Qed.
+
 End RunnerP.
 
 (* ---------------------------------------------------------------- the runner only looks at run_body pointwise *)
+(* witness: one passing test in a good file, then a file that does not parse: exit 1, nothing reported;
+   without the broken file the same test is reported and the exit status is 0 *)
+Definition bf_body (_ : unit) (_ : unit) (σ : unit) : nat * verdict * list unit * unit := (1, Pass, [], σ).
+Definition bf_test : test unit unit := {| t_name := 1%N; t_scopes := [tt]; t_skip := false; t_body := tt |}.
+Example broken_file_example :
+  cli_outcome unit unit unit unit bf_body tt [FOk [ISingle bf_test]; FBroken] = (1, [], c0) /\
+  fst (fst (cli_outcome unit unit unit unit bf_body tt [FOk [ISingle bf_test]])) = 0 /\
+  length (snd (fst (cli_outcome unit unit unit unit bf_body tt [FOk [ISingle bf_test]]))) = 1.
+Proof. vm_compute. repeat split; reflexivity. Qed.
+
 Section Ext.
 Variable scope logline istate body : Type.
 Variables rb rb' : scope -> body -> istate -> nat * verdict * list logline * istate.
